@@ -357,6 +357,8 @@ func genE1(r *Run, prop string) (*e1World, *e1Config) {
 					d.target = 1 + r.Choose("src-log", cfg.nlogs-1) // a source log grows
 				case x < 18:
 					d.kind = kJoinBad
+				case x >= 25 && prop == "C03":
+					d.kind = kValues // the property is about this read
 				default:
 					d.kind = kValues + (x-18)%(kJoinBad-kValues)
 				}
@@ -538,6 +540,42 @@ func (w *e1World) evaluate(s *sched, cfg *e1Config) {
 				if !final[n] {
 					r.Violate(prop+":causal-closure", "%s holds %s without its predecessor %s", w.names[i], w.name(h), w.name(n))
 				}
+			}
+		}
+		// at quiescence every read surface agrees with the entries the log holds
+		quiet := func(what string, got []string) {
+			if hasDup(got) {
+				r.Violate(prop+":quiescent-read", "%s of %s after all tasks finished lists an entry twice", what, w.names[i])
+			}
+			gs := map[string]bool{}
+			for _, h := range got {
+				gs[h] = true
+			}
+			if !setEq(gs, final) {
+				r.Violate(prop+":quiescent-read", "%s of %s after all tasks finished gives %v, the log holds %v", what, w.names[i], w.names_(sortedKeys(gs)), w.names_(sortedKeys(final)))
+			}
+		}
+		quiet("Values", hashSeq(l.Values()))
+		var sv []string
+		for _, e := range l.ToSnapshot().Values {
+			sv = append(sv, e.GetHash().String())
+		}
+		quiet("ToSnapshot", sv)
+		if n := l.Len(); n != len(final) {
+			r.Violate(prop+":quiescent-read", "Len of %s after all tasks finished is %d, the log holds %d entries", w.names[i], n, len(final))
+		}
+		ch := make(chan iface.IPFSLogEntry, len(final)+8)
+		if err := l.Iterator(&ipfslog.IteratorOptions{}, ch); err == nil {
+			var it []string
+			for e := range ch {
+				it = append(it, e.GetHash().String())
+			}
+			quiet("Iterator", it)
+		}
+		for h := range final {
+			c, err := cid.Decode(h)
+			if err == nil && !l.Has(c) {
+				r.Violate(prop+":quiescent-read", "Has(%s) of %s after all tasks finished is false", w.name(h), w.names[i])
 			}
 		}
 	}
